@@ -650,10 +650,11 @@ def netflowProduceCost (p : Netflow.Packet) : Nat :=
 
 def netflowShare (version : Nat) : Netflow.Share := ⟨recordProdCost version, optsRecordProd, appSet⟩
 
-/-- one record of a flow sample in SearchSFlowSampleConfig: only a raw Ethernet header allocates -/
+/-- one record of a flow sample in SearchSFlowSampleConfig: only a raw Ethernet header allocates; what is dissected is
+    the header data cut to the announced length (`data = data[:n]` is a reslice, no allocation) -/
 def sflowRecordProdCost (r : Sflow.FlowRecord) : Nat :=
   match r.data with
-  | .raw vals hd => if vals.getD 0 0 = 1 then parseCost hd else 0
+  | .raw vals hd => if vals.getD 0 0 = 1 then parseCost (hd.take (vals.getD 3 0)) else 0
   | _ => 0
 
 def sflowRecordsProdCost : List Sflow.FlowRecord → Nat
